@@ -17,7 +17,7 @@ Hypothesis keq_refl : forall a, keq a a = true.
 Hypothesis keq_sym : forall a b, keq a b = keq b a.
 Hypothesis keq_trans : forall a b c, keq a b = true -> keq b c = true -> keq a c = true.
 Hypothesis hcode_compat : forall a b, ok a = true -> ok b = true -> keq a b = true -> hcode a = hcode b.
-Hypothesis unwrap_idem : forall a, unwrap (unwrap a) = unwrap a.
+Hypothesis unwrap_idem : forall a, ok a = true -> unwrap (unwrap a) = unwrap a.
 Hypothesis unwrap_ok : forall a, ok a = true -> ok (unwrap a) = true.
 Hypothesis keq_fixed : forall a b, keq a b = true -> unwrap a = a -> unwrap b = b.
 
@@ -27,14 +27,15 @@ Notation bucket := (bucket K V).
 Notation s_get := (s_get K V keq).
 Notation s_set := (s_set K V keq).
 Notation s_del := (s_del K V keq).
-Notation getd := (hash_get_default K V keq hcode).
+Notation getd := (bucket_lookup K V keq hcode).
+Notation getdflt := (hash_get_default K V keq hcode unwrap).
 Notation get := (hash_get K V keq hcode unwrap).
 Notation hset := (hash_set K V keq hcode unwrap).
-Notation hdel := (hash_delete K V keq hcode).
-Notation step := (step K V keq hcode unwrap).
+Notation hdel := (delete_key K V keq keq hcode).
+Notation step := (step K V keq keq hcode unwrap).
 Notation s_step := (s_step K V keq unwrap).
 Notation abs := (abs K V keq hcode unwrap).
-Notation run := (run K V keq hcode unwrap).
+Notation run := (run K V keq keq hcode unwrap).
 Notation s_run := (s_run K V keq unwrap).
 Notation empty := (empty K V).
 
@@ -273,8 +274,13 @@ Qed.
 (* buckets *)
 Definition bk (t : tbl) (h : Z) : bucket := match b_find K V (buckets t) h with Some b => b | None => [] end.
 
+Lemma b_get_s_get : forall (b : bucket) k, b_get K V keq b k = s_get b k.
+Proof. induction b as [|[k' v] r IH]; simpl; intros k; [reflexivity|]. now rewrite IH. Qed.
+
 Lemma getd_bk : forall t k, getd t k = s_get (bk t (hcode k)) k.
-Proof. intros. unfold hash_get_default, bk. now destruct (b_find K V (buckets t) (hcode k)). Qed.
+Proof.
+  intros. unfold bucket_lookup, bk. destruct (b_find K V (buckets t) (hcode k)); [apply b_get_s_get|reflexivity].
+Qed.
 
 Definition put (t : tbl) h b ko n : tbl := {| buckets := b_put K V (buckets t) h b; korder := ko; nkeys := n |}.
 
@@ -310,7 +316,7 @@ Lemma hdel_eq : forall t key,
     then put t h (remove_first (fun p => keq (fst p) key) arr) (remove_first (fun k => keq k key) (korder t)) (nkeys t - 1)
     else t.
 Proof.
-  intros. unfold hash_delete, arr, bk, h, put.
+  intros. unfold delete_key, arr, bk, h, put.
   destruct (b_find K V (buckets t) (hcode key)); reflexivity.
 Qed.
 
@@ -382,7 +388,7 @@ Proof.
 Qed.
 
 Lemma good_unwrap : forall k, ok k = true -> good (unwrap k).
-Proof. intros k H. split; [now apply unwrap_ok|apply unwrap_idem]. Qed.
+Proof. intros k H. split; [now apply unwrap_ok|now apply unwrap_idem]. Qed.
 
 Lemma korder_present : forall t key, Inv t -> good key ->
   existsb (fun x => keq x key) (korder t) = existsb (fun p => keq (fst p) key) (bk t (hcode key)).
@@ -561,11 +567,12 @@ Qed.
 (* every history: the invariant holds in every reachable state *)
 Notation op := (op K V).
 Definition op_ok (o : op) : Prop := ok (op_key K V o) = true.
-(* the delete does not name a one-element array (HashDelete does not unwrap it) *)
-Definition op_plain (o : op) : Prop := match o with ODel k => unwrap k = k | OSet _ _ => True end.
 
 Theorem inv_step : forall t o, Inv t -> op_ok o -> Inv (step t o).
-Proof. intros t [k v|k] HI Hok; simpl; [now apply inv_hset|now apply inv_hdel]. Qed.
+Proof.
+  intros t [k v|k] HI Hok; simpl; [now apply inv_hset|].
+  unfold hash_delete. apply inv_hdel; [assumption|now apply unwrap_ok].
+Qed.
 
 Lemma inv_fold : forall ops t, Inv t -> Forall op_ok ops -> Inv (fold_left step ops t).
 Proof.
@@ -579,7 +586,7 @@ Proof. intros. apply inv_fold; [apply inv_empty|assumption]. Qed.
 (* ------------------------------------------------------------------ *)
 (* refinement of the state-changing operations *)
 Lemma get_getd_good : forall t k, unwrap k = k -> get t k = getd t k.
-Proof. intros t k H. unfold hash_get. now rewrite H. Qed.
+Proof. intros t k H. unfold hash_get, hash_get_default. now rewrite !H. Qed.
 
 Lemma abs_def : forall t, abs t = fm (get t) (korder t).
 Proof. reflexivity. Qed.
@@ -632,37 +639,30 @@ Proof.
     now rewrite keq_sym.
 Qed.
 
-(* HashDelete of a one-element array [k] (not unwrapped) never finds anything *)
-Theorem hdel_wrapped_noop : forall t key, Inv t -> ok key = true -> unwrap key <> key -> hdel t key = t.
+Theorem step_refines : forall t o, Inv t -> op_ok o -> abs (step t o) = s_step (abs t) o.
 Proof.
-  intros t key HI Hok Hne. rewrite hdel_eq. cbv zeta.
-  destruct (existsb (fun p => keq (fst p) key) (bk t (hcode key))) eqn:Ex; [|reflexivity].
-  exfalso. apply Hne. now destruct (present_good t key HI Hok Ex).
-Qed.
-
-Theorem step_refines : forall t o, Inv t -> op_ok o -> op_plain o -> abs (step t o) = s_step (abs t) o.
-Proof.
-  intros t [k v|k] HI Hok Hpl; simpl in *.
+  intros t [k v|k] HI Hok; simpl in *.
   - now apply abs_hset.
-  - rewrite Hpl. apply abs_hdel; [assumption|now split].
+  - unfold hash_delete. apply abs_hdel; [assumption|now apply good_unwrap].
 Qed.
 
-Lemma fold_refines : forall ops t s, Inv t -> abs t = s -> Forall op_ok ops -> Forall op_plain ops ->
+Lemma fold_refines : forall ops t s, Inv t -> abs t = s -> Forall op_ok ops ->
   abs (fold_left step ops t) = fold_left s_step ops s.
 Proof.
-  induction ops as [|o r IH]; simpl; intros t s HI Habs Hok Hpl; [assumption|].
-  inversion Hok; inversion Hpl; subst. apply IH; try assumption.
+  induction ops as [|o r IH]; simpl; intros t s HI Habs Hok; [assumption|].
+  inversion Hok; subst. apply IH; try assumption.
   - now apply inv_step.
   - now apply step_refines.
 Qed.
 
-Theorem history_refines : forall ops, Forall op_ok ops -> Forall op_plain ops -> abs (run ops) = s_run ops.
+Theorem history_refines : forall ops, Forall op_ok ops -> abs (run ops) = s_run ops.
 Proof. intros. apply fold_refines; auto using inv_empty. Qed.
 
 (* deleting a key that is not there changes nothing at all *)
-Theorem missing_delete_noop : forall t key, getd t key = None -> hdel t key = t.
+Theorem missing_delete_noop : forall t k, getdflt t k = None -> step t (ODel k) = t.
 Proof.
-  intros t key H. rewrite hdel_eq. cbv zeta. rewrite existsb_s_get. rewrite getd_bk in H. now rewrite H.
+  intros t k H. simpl. unfold hash_delete, hash_get_default in *. rewrite hdel_eq. cbv zeta.
+  rewrite existsb_s_get. rewrite getd_bk in H. now rewrite H.
 Qed.
 
 (* ------------------------------------------------------------------ *)
@@ -679,8 +679,14 @@ Proof.
   - intros x Hx Hxk. apply getd_keq; try assumption; [now destruct (inv_good t HI x Hx)|now destruct Hg].
 Qed.
 
+Theorem getdflt_refines : forall t k, Inv t -> ok k = true -> getdflt t k = s_lookup K V keq unwrap (abs t) k.
+Proof. intros t k HI Hok. unfold hash_get_default, s_lookup. apply getd_refines; [assumption|now apply good_unwrap]. Qed.
+
 Theorem get_refines : forall t k, Inv t -> ok k = true -> get t k = s_lookup K V keq unwrap (abs t) k.
-Proof. intros t k HI Hok. unfold hash_get, s_lookup. apply getd_refines; [assumption|now apply good_unwrap]. Qed.
+Proof.
+  intros t k HI Hok. unfold hash_get, hash_get_default, s_lookup. rewrite unwrap_idem by assumption.
+  apply getd_refines; [assumption|now apply good_unwrap].
+Qed.
 
 Lemma get_res : forall t, Inv t -> forall x, In x (korder t) -> get t x <> None.
 Proof.
@@ -796,20 +802,9 @@ Proof.
   rewrite <- abs_def. f_equal. f_equal. rewrite abs_def, fm_keys; [reflexivity|now apply get_res].
 Qed.
 
-(* the printed form: exact except for a hash emptied by deletions (the bucket map keeps
-   its empty buckets, SexpString then cuts off the opening brace) *)
-Theorem str_refines_partial : forall t, Inv t -> abs t <> [] \/ buckets t = [] ->
-  str_obs K V keq hcode unwrap t = s_str K V (abs t).
-Proof.
-  intros t HI Hc. unfold str_obs, s_str. fold (abs t). f_equal.
-  destruct (buckets t) eqn:Eb.
-  - (* no bucket: nothing resolves *)
-    assert (abs t = []) as ->; [|reflexivity].
-    rewrite abs_def. assert (korder t = []) as ->; [|reflexivity].
-    destruct (korder t) as [|x r] eqn:Ek; [reflexivity|]. exfalso.
-    apply (inv_res t HI x); [rewrite Ek; now left|]. unfold hash_get_default. now rewrite Eb.
-  - destruct (abs t); [|reflexivity]. destruct Hc as [Hc|Hc]; [now contradiction Hc|discriminate].
-Qed.
+(* the printed form *)
+Theorem str_refines : forall t, str_obs K V keq hcode unwrap t = s_str K V (abs t).
+Proof. reflexivity. Qed.
 
 Lemma collect_ok : forall (A : Type) (f : Z -> outcome A) (l : list A) i,
   (forall j a, nth_error l j = Some a -> f (i + Z.of_nat j) = Ok a) -> collect f i (length l) = Ok l.
@@ -873,24 +868,315 @@ Proof.
     pose proof (s_pair_no_crash (abs t) pos). now destruct (s_pair K V (abs t) pos).
 Qed.
 
-(* HashGetDefault (hget with a default) of a one-element array [k] never finds anything *)
-Theorem getd_wrapped_none : forall t key, Inv t -> ok key = true -> unwrap key <> key -> getd t key = None.
-Proof.
-  intros t key HI Hok Hne. destruct (getd t key) eqn:G; [|reflexivity]. exfalso. apply Hne.
-  rewrite getd_bk in G.
-  assert (existsb (fun p => keq (fst p) key) (bk t (hcode key)) = true) by (rewrite existsb_s_get; now rewrite G).
-  now destruct (present_good t key HI Hok H).
-Qed.
-
 End Generic.
 
+
 (* ================================================================== *)
-(* the concrete keys: Compare = 0 is an equivalence, the hash codes respect it *)
+(* The code compares with Compare = 0 ([ceq]) inside a bucket and with "same hash code and
+   Compare = 0" ([kidg]) on KeyOrder.  On every state whose buckets hold only keys of their own
+   code the two coincide, so the code is the generic table taken at the identity [kidg] --
+   for which the hash function respects the identity by construction: NO assumption on [hcode]. *)
+Section Bridge.
+Variables K V : Type.
+Variable ceq : K -> K -> bool.
+Variable hcode : K -> Z.
+Variable unwrap : K -> K.
+Variable ok : K -> bool.
+
+Hypothesis ceq_refl : forall a, ceq a a = true.
+Hypothesis ceq_sym : forall a b, ceq a b = ceq b a.
+Hypothesis ceq_trans : forall a b c, ceq a b = true -> ceq b c = true -> ceq a c = true.
+Hypothesis unwrap_idem : forall a, ok a = true -> unwrap (unwrap a) = unwrap a.
+Hypothesis unwrap_ok : forall a, ok a = true -> ok (unwrap a) = true.
+Hypothesis ceq_fixed : forall a b, ceq a b = true -> unwrap a = a -> unwrap b = b.
+
+Definition kidg (a b : K) : bool := Z.eqb (hcode a) (hcode b) && ceq a b.
+
+Lemma kid_refl : forall a, kidg a a = true.
+Proof. intros. unfold kidg. now rewrite Z.eqb_refl, ceq_refl. Qed.
+Lemma kid_sym : forall a b, kidg a b = kidg b a.
+Proof. intros. unfold kidg. now rewrite Z.eqb_sym, ceq_sym. Qed.
+Lemma kid_trans : forall a b c, kidg a b = true -> kidg b c = true -> kidg a c = true.
+Proof.
+  unfold kidg. intros a b c H1 H2. apply andb_true_iff in H1 as [H1 H1']. apply andb_true_iff in H2 as [H2 H2'].
+  apply Z.eqb_eq in H1, H2. apply andb_true_iff. split; [apply Z.eqb_eq; congruence|eapply ceq_trans; eauto].
+Qed.
+Lemma kid_compat : forall a b, ok a = true -> ok b = true -> kidg a b = true -> hcode a = hcode b.
+Proof. unfold kidg. intros a b _ _ H. apply andb_true_iff in H as [H _]. now apply Z.eqb_eq. Qed.
+Lemma kid_fixed : forall a b, kidg a b = true -> unwrap a = a -> unwrap b = b.
+Proof. unfold kidg. intros a b H. apply andb_true_iff in H as [_ H]. now apply ceq_fixed. Qed.
+
+Ltac kh := first [exact kid_refl | exact kid_sym | exact kid_trans | exact kid_compat
+                 | exact unwrap_idem | exact unwrap_ok | exact kid_fixed].
+
+Notation tbl := (tbl K V).
+Notation op := (op K V).
+Definition KInv (t : tbl) : Prop := Inv K V kidg hcode unwrap ok t.
+Notation rstep := (step K V ceq kidg hcode unwrap).
+Notation kstep := (step K V kidg kidg hcode unwrap).
+Notation rrun := (run K V ceq kidg hcode unwrap).
+Notation krun := (run K V kidg kidg hcode unwrap).
+Notation rabs := (abs K V ceq hcode unwrap).
+Notation kabs := (abs K V kidg hcode unwrap).
+Notation sstep := (s_step K V kidg unwrap).
+Notation srun := (s_run K V kidg unwrap).
+Notation okop := (op_ok K V ok).
+
+(* buckets hold keys of their own code *)
+Definition coded (t : tbl) : Prop := forall h k v, In (k, v) (bk K V t h) -> hcode k = h.
+
+Lemma kinv_coded : forall t, KInv t -> coded t.
+Proof. intros t HI h k v Hin. destruct (inv_bk _ _ _ _ _ _ t HI h) as [_ Hall]. now destruct (Hall k v Hin). Qed.
+
+Lemma existsb_ext_in : forall (A : Type) (f g : A -> bool) l, (forall x, In x l -> f x = g x) -> existsb f l = existsb g l.
+Proof.
+  induction l as [|a r IH]; simpl; intros H; [reflexivity|]. rewrite (H a) by now left. f_equal. apply IH. auto.
+Qed.
+Lemma remove_first_ext_in : forall (A : Type) (f g : A -> bool) l, (forall x, In x l -> f x = g x) ->
+  remove_first f l = remove_first g l.
+Proof.
+  induction l as [|a r IH]; simpl; intros H; [reflexivity|]. rewrite (H a) by now left.
+  destruct (g a); [reflexivity|]. f_equal. apply IH. auto.
+Qed.
+Lemma b_get_ext_in : forall (r1 r2 : K -> K -> bool) (b : list (K * V)) k,
+  (forall k' v, In (k', v) b -> r1 k' k = r2 k' k) -> b_get K V r1 b k = b_get K V r2 b k.
+Proof.
+  induction b as [|[k' v] r IH]; simpl; intros k H; [reflexivity|].
+  rewrite (H k' v) by now left. destruct (r2 k' k); [reflexivity|]. apply IH. intros; eapply H; right; eauto.
+Qed.
+
+Lemma in_bucket_same : forall t k b k' v, coded t -> b_find K V (buckets t) (hcode k) = Some b -> In (k', v) b ->
+  ceq k' k = kidg k' k.
+Proof.
+  intros t k b k' v Hc E Hin. unfold kidg.
+  assert (hcode k' = hcode k) as -> by (apply (Hc (hcode k) k' v); unfold bk; now rewrite E).
+  now rewrite Z.eqb_refl.
+Qed.
+
+Lemma lookup_agree : forall t k, coded t -> bucket_lookup K V ceq hcode t k = bucket_lookup K V kidg hcode t k.
+Proof.
+  intros t k Hc. unfold bucket_lookup. destruct (b_find K V (buckets t) (hcode k)) eqn:E; [|reflexivity].
+  apply b_get_ext_in. intros k' v Hin. eapply in_bucket_same; eauto.
+Qed.
+
+Lemma getdflt_agree : forall t k, coded t -> hash_get_default K V ceq hcode unwrap t k = hash_get_default K V kidg hcode unwrap t k.
+Proof. intros. unfold hash_get_default. now apply lookup_agree. Qed.
+
+Lemma get_agree : forall t k, coded t -> hash_get K V ceq hcode unwrap t k = hash_get K V kidg hcode unwrap t k.
+Proof. intros. unfold hash_get. now apply getdflt_agree. Qed.
+
+Lemma set_agree : forall t k v, coded t -> hash_set K V ceq hcode unwrap t k v = hash_set K V kidg hcode unwrap t k v.
+Proof.
+  intros t k v Hc. unfold hash_set. destruct (b_find K V (buckets t) (hcode (unwrap k))) eqn:E; [|reflexivity].
+  assert (Hs : forall p, In p b -> ceq (fst p) (unwrap k) = kidg (fst p) (unwrap k)).
+  { intros [k' v'] Hin. simpl. eapply in_bucket_same; eauto. }
+  rewrite (existsb_ext_in _ (fun p => ceq (fst p) (unwrap k)) (fun p => kidg (fst p) (unwrap k)) b Hs).
+  destruct (existsb _ b); [|reflexivity]. f_equal. f_equal.
+  apply map_ext_in. intros p Hp. now rewrite (Hs p Hp).
+Qed.
+
+Lemma del_agree : forall t k, coded t -> delete_key K V ceq kidg hcode t k = delete_key K V kidg kidg hcode t k.
+Proof.
+  intros t k Hc. unfold delete_key. destruct (b_find K V (buckets t) (hcode k)) eqn:E; [|reflexivity].
+  assert (Hs : forall p, In p b -> ceq (fst p) k = kidg (fst p) k).
+  { intros [k' v'] Hin. simpl. eapply in_bucket_same; eauto. }
+  rewrite (existsb_ext_in _ (fun p => ceq (fst p) k) (fun p => kidg (fst p) k) b Hs).
+  destruct (existsb _ b); [|reflexivity]. f_equal. f_equal.
+  now apply remove_first_ext_in.
+Qed.
+
+Lemma step_agree : forall t o, coded t -> rstep t o = kstep t o.
+Proof. intros t [k v|k] Hc; simpl; [now apply set_agree|unfold hash_delete; now apply del_agree]. Qed.
+
+Theorem b_inv_init : KInv (empty K V).
+Proof. apply inv_empty. Qed.
+
+Theorem b_inv_step : forall t o, KInv t -> okop o -> KInv (rstep t o).
+Proof. intros t o HI Hok. rewrite step_agree by now apply kinv_coded. apply inv_step; try kh; assumption. Qed.
+
+Lemma b_inv_fold : forall ops t, KInv t -> Forall okop ops -> KInv (fold_left rstep ops t).
+Proof.
+  induction ops as [|o r IH]; simpl; intros t HI Hall; [assumption|].
+  inversion Hall; subst. apply IH; [now apply b_inv_step|assumption].
+Qed.
+
+Theorem b_reachable_inv : forall ops, Forall okop ops -> KInv (rrun ops).
+Proof. intros. apply b_inv_fold; [apply b_inv_init|assumption]. Qed.
+
+(* reads *)
+Lemma abs_agree : forall t, coded t -> rabs t = kabs t.
+Proof.
+  intros t Hc. unfold abs, entries. apply flat_map_ext. intros k. now rewrite get_agree.
+Qed.
+
+Lemma fr_agree : forall t l, coded t ->
+  first_resolving K V ceq hcode unwrap t l = first_resolving K V kidg hcode unwrap t l.
+Proof. intros t l Hc. induction l as [|k r IH]; simpl; [reflexivity|]. rewrite get_agree by assumption. now rewrite IH. Qed.
+
+Lemma hpair_agree : forall t pos, coded t -> hpair K V ceq hcode unwrap t pos = hpair K V kidg hcode unwrap t pos.
+Proof. intros. unfold hpair, hash_pairi. now rewrite fr_agree. Qed.
+
+Lemma range_pair_agree : forall t pos, coded t -> range_pair K V ceq hcode unwrap t pos = range_pair K V kidg hcode unwrap t pos.
+Proof. intros. unfold range_pair, hash_pairi. now rewrite fr_agree. Qed.
+
+Lemma json_entries_agree : forall t l, coded t ->
+  json_entries K V ceq hcode unwrap t l = json_entries K V kidg hcode unwrap t l.
+Proof. intros t l Hc. induction l as [|k r IH]; simpl; [reflexivity|]. rewrite get_agree by assumption. now rewrite IH. Qed.
+
+Lemma collect_ext : forall (A : Type) (f g : Z -> outcome A), (forall i, f i = g i) -> forall n i, collect f i n = collect g i n.
+Proof. intros A f g H. induction n as [|n IH]; simpl; intros i; [reflexivity|]. now rewrite H, IH. Qed.
+
+Theorem b_step_refines : forall t o, KInv t -> okop o -> rabs (rstep t o) = sstep (rabs t) o.
+Proof.
+  intros t o HI Hok. pose proof (kinv_coded t HI) as Hc.
+  rewrite (abs_agree _ (kinv_coded _ (b_inv_step t o HI Hok))), (abs_agree t Hc), step_agree by assumption.
+  apply (step_refines K V kidg hcode unwrap ok); try kh; assumption.
+Qed.
+
+Lemma b_fold_refines : forall ops t s, KInv t -> rabs t = s -> Forall okop ops -> rabs (fold_left rstep ops t) = fold_left sstep ops s.
+Proof.
+  induction ops as [|o r IH]; simpl; intros t s HI Habs Hok; [assumption|].
+  inversion Hok; subst. apply IH; try assumption; [now apply b_inv_step|now apply b_step_refines].
+Qed.
+
+Theorem b_history_refines : forall ops, Forall okop ops -> rabs (rrun ops) = srun ops.
+Proof. intros. apply b_fold_refines; auto using b_inv_init. Qed.
+
+Theorem b_get_refines : forall t k, KInv t -> ok k = true -> hash_get K V ceq hcode unwrap t k = s_lookup K V kidg unwrap (rabs t) k.
+Proof.
+  intros t k HI Hok. pose proof (kinv_coded t HI) as Hc. rewrite get_agree, abs_agree by assumption.
+  apply (get_refines K V kidg hcode unwrap ok); try kh; assumption.
+Qed.
+
+Theorem b_getdflt_refines : forall t k, KInv t -> ok k = true -> hash_get_default K V ceq hcode unwrap t k = s_lookup K V kidg unwrap (rabs t) k.
+Proof.
+  intros t k HI Hok. pose proof (kinv_coded t HI) as Hc. rewrite getdflt_agree, abs_agree by assumption.
+  apply (getdflt_refines K V kidg hcode unwrap ok); try kh; assumption.
+Qed.
+
+Theorem b_len_refines : forall t, KInv t -> len K V t = s_len K V (rabs t).
+Proof. intros t HI. rewrite abs_agree by now apply kinv_coded. now apply (len_refines K V kidg hcode unwrap ok). Qed.
+
+Theorem b_keys_refines : forall t, KInv t -> keys K V t = s_keys K V (rabs t).
+Proof. intros t HI. rewrite abs_agree by now apply kinv_coded. now apply (keys_refines K V kidg hcode unwrap ok). Qed.
+
+Theorem b_hpair_refines : forall t pos, KInv t -> hpair K V ceq hcode unwrap t pos = s_pair K V (rabs t) pos.
+Proof.
+  intros t pos HI. pose proof (kinv_coded t HI) as Hc. rewrite hpair_agree, abs_agree by assumption.
+  now apply (hpair_refines K V kidg hcode unwrap ok).
+Qed.
+
+Theorem b_range_pair_refines : forall t pos, KInv t -> range_pair K V ceq hcode unwrap t pos = s_pair K V (rabs t) pos.
+Proof.
+  intros t pos HI. pose proof (kinv_coded t HI) as Hc. rewrite range_pair_agree, abs_agree by assumption.
+  now apply (range_pair_refines K V kidg hcode unwrap ok).
+Qed.
+
+Theorem b_range_key_refines : forall t pos, KInv t -> range_key K V ceq hcode unwrap t pos = s_range_key K V (rabs t) pos.
+Proof. intros t pos HI. unfold range_key, s_range_key. now rewrite b_range_pair_refines. Qed.
+
+Theorem b_json_refines : forall t, KInv t -> json_obs K V ceq hcode unwrap t = s_json K V (rabs t).
+Proof.
+  intros t HI. pose proof (kinv_coded t HI) as Hc. unfold json_obs. rewrite json_entries_agree, abs_agree by assumption.
+  now apply (json_refines K V kidg hcode unwrap ok).
+Qed.
+
+Theorem b_str_refines : forall t, str_obs K V ceq hcode unwrap t = s_str K V (rabs t).
+Proof. reflexivity. Qed.
+
+Lemma loop_macro_agree : forall t, coded t -> loop_macro K V ceq hcode unwrap t = loop_macro K V kidg hcode unwrap t.
+Proof.
+  intros t Hc. unfold loop_macro. destruct (len K V t); try reflexivity.
+  apply collect_ext. intros i. now apply hpair_agree.
+Qed.
+
+Lemma loop_infix_agree : forall t, coded t -> loop_infix K V ceq hcode unwrap t = loop_infix K V kidg hcode unwrap t.
+Proof.
+  intros t Hc. unfold loop_infix. destruct (len K V t); try reflexivity.
+  apply collect_ext. intros i. now apply range_pair_agree.
+Qed.
+
+Theorem b_loop_macro_refines : forall t, KInv t -> loop_macro K V ceq hcode unwrap t = s_loop K V (rabs t).
+Proof.
+  intros t HI. pose proof (kinv_coded t HI) as Hc. rewrite loop_macro_agree, abs_agree by assumption.
+  now apply (loop_macro_refines K V kidg hcode unwrap ok).
+Qed.
+
+Theorem b_loop_infix_refines : forall t, KInv t -> loop_infix K V ceq hcode unwrap t = s_loop K V (rabs t).
+Proof.
+  intros t HI. pose proof (kinv_coded t HI) as Hc. rewrite loop_infix_agree, abs_agree by assumption.
+  now apply (loop_infix_refines K V kidg hcode unwrap ok).
+Qed.
+
+Theorem b_len_keys_agree : forall t, KInv t ->
+  len K V t = Ok (Z.of_nat (length (keys K V t))) /\ length (keys K V t) = length (rabs t) /\
+  nkeys t = Z.of_nat (length (keys K V t)).
+Proof. intros t HI. rewrite abs_agree by now apply kinv_coded. now apply (len_keys_agree K V kidg hcode unwrap ok). Qed.
+
+Theorem b_hpair_total : forall t pos, KInv t -> 0 <= pos < Z.of_nat (length (keys K V t)) ->
+  exists kv, hpair K V ceq hcode unwrap t pos = Ok kv /\ nth_error (rabs t) (Z.to_nat pos) = Some kv.
+Proof.
+  intros t pos HI Hr. pose proof (kinv_coded t HI) as Hc. rewrite hpair_agree, abs_agree by assumption.
+  now apply (hpair_total K V kidg hcode unwrap ok).
+Qed.
+
+Theorem b_no_internal_panic : forall t, KInv t ->
+  len K V t <> Crash /\ json_obs K V ceq hcode unwrap t <> Crash /\
+  (forall pos, hpair K V ceq hcode unwrap t pos <> Crash) /\
+  (forall pos, range_pair K V ceq hcode unwrap t pos <> Crash) /\
+  (forall pos, range_key K V ceq hcode unwrap t pos <> Crash).
+Proof.
+  intros t HI. repeat split.
+  - now rewrite b_len_refines.
+  - now rewrite b_json_refines.
+  - intros pos. rewrite b_hpair_refines by assumption. apply s_pair_no_crash.
+  - intros pos. rewrite b_range_pair_refines by assumption. apply s_pair_no_crash.
+  - intros pos. rewrite b_range_key_refines by assumption. unfold s_range_key.
+    pose proof (s_pair_no_crash K V (rabs t) pos). now destruct (s_pair K V (rabs t) pos).
+Qed.
+
+(* deleting a missing key changes nothing; no KInv needed *)
+Theorem b_missing_delete_noop : forall t k, hash_get_default K V ceq hcode unwrap t k = None -> rstep t (ODel k) = t.
+Proof.
+  intros t k H. simpl. unfold hash_delete, delete_key, hash_get_default, bucket_lookup in *.
+  destruct (b_find K V (buckets t) (hcode (unwrap k))); [|reflexivity].
+  assert (E : existsb (fun p => ceq (fst p) (unwrap k)) b = false); [|now rewrite E].
+  revert H. generalize (unwrap k). clear. intros k. induction b as [|[k' v] r IH]; simpl; intros H; [reflexivity|].
+  destruct (ceq k' k); [discriminate|now apply IH].
+Qed.
+
+(* the master statement *)
+Theorem b_hash_is_ordered_map : forall ops, Forall okop ops ->
+  let t := rrun ops in let s := srun ops in
+  KInv t /\ rabs t = s /\
+  len K V t = s_len K V s /\ keys K V t = s_keys K V s /\
+  (forall k, ok k = true -> hash_get K V ceq hcode unwrap t k = s_lookup K V kidg unwrap s k) /\
+  (forall k, ok k = true -> hash_get_default K V ceq hcode unwrap t k = s_lookup K V kidg unwrap s k) /\
+  (forall pos, hpair K V ceq hcode unwrap t pos = s_pair K V s pos) /\
+  (forall pos, range_pair K V ceq hcode unwrap t pos = s_pair K V s pos) /\
+  (forall pos, range_key K V ceq hcode unwrap t pos = s_range_key K V s pos) /\
+  json_obs K V ceq hcode unwrap t = s_json K V s /\
+  loop_macro K V ceq hcode unwrap t = s_loop K V s /\ loop_infix K V ceq hcode unwrap t = s_loop K V s /\
+  str_obs K V ceq hcode unwrap t = s_str K V s.
+Proof.
+  intros ops Hok t s.
+  pose proof (b_reachable_inv ops Hok) as HI. pose proof (b_history_refines ops Hok) as Habs.
+  fold t in HI, Habs. fold s in Habs. rewrite <- Habs.
+  refine (conj HI (conj eq_refl _)).
+  repeat match goal with |- _ /\ _ => split end; intros;
+    auto using b_len_refines, b_keys_refines, b_get_refines, b_getdflt_refines, b_hpair_refines,
+    b_range_pair_refines, b_range_key_refines, b_json_refines, b_loop_macro_refines, b_loop_infix_refines, b_str_refines.
+Qed.
+
+End Bridge.
+
+(* ================================================================== *)
+(* the concrete keys: Compare = 0 is an equivalence *)
 
 Definition acanon (a : atom) : Z * Z * list Z :=
   match a with AInt z | AChar z => (0, z, []) | ASym n => (1, n, []) | AStr s => (2, 0, s) end.
-Definition kcanon (k : key) : (Z * Z * list Z) + list (Z * Z * list Z) :=
-  match k with KAtom a => inl (acanon a) | KArr l => inr (map acanon l) end.
+Definition kcanon (k : key) : (Z * Z * list Z) + (bool * list (Z * Z * list Z)) :=
+  match k with KAtom a => inl (acanon a) | KArr l => inr (false, map acanon l) | KWrap l => inr (true, map acanon l) end.
 
 Lemma zlist_eqb_eq : forall a b, zlist_eqb a b = true <-> a = b.
 Proof.
@@ -915,254 +1201,138 @@ Proof.
   - inversion H as [[H1 H2]]. apply aeq_canon in H1. apply IH in H2. now rewrite H1, H2.
 Qed.
 
-Lemma keq_canon : forall a b, keq a b = true <-> kcanon a = kcanon b.
+Lemma ceq_canon : forall a b, ceq a b = true <-> kcanon a = kcanon b.
 Proof.
-  intros [a|a] [b|b]; simpl; split; intros H; try discriminate.
+  intros [a|a|a] [b|b|b]; simpl; split; intros H; try discriminate.
   - apply aeq_canon in H. now rewrite H.
   - inversion H. now apply aeq_canon.
   - apply alist_eq_canon in H. now rewrite H.
   - inversion H. now apply alist_eq_canon.
+  - apply alist_eq_canon in H. now rewrite H.
+  - inversion H. now apply alist_eq_canon.
 Qed.
 
-Lemma keq_refl : forall a, keq a a = true.
-Proof. intros. now apply keq_canon. Qed.
+Lemma ceq_refl : forall a, ceq a a = true.
+Proof. intros. now apply ceq_canon. Qed.
 
-Lemma keq_sym : forall a b, keq a b = keq b a.
+Lemma ceq_sym : forall a b, ceq a b = ceq b a.
 Proof.
-  intros a b. destruct (keq a b) eqn:E1, (keq b a) eqn:E2; try reflexivity.
-  - apply keq_canon in E1. symmetry in E1. apply keq_canon in E1. congruence.
-  - apply keq_canon in E2. symmetry in E2. apply keq_canon in E2. congruence.
+  intros a b. destruct (ceq a b) eqn:E1, (ceq b a) eqn:E2; try reflexivity.
+  - apply ceq_canon in E1. symmetry in E1. apply ceq_canon in E1. congruence.
+  - apply ceq_canon in E2. symmetry in E2. apply ceq_canon in E2. congruence.
 Qed.
 
-Lemma keq_trans : forall a b c, keq a b = true -> keq b c = true -> keq a c = true.
-Proof. intros a b c H1 H2. apply keq_canon in H1, H2. apply keq_canon. congruence. Qed.
+Lemma ceq_trans : forall a b c, ceq a b = true -> ceq b c = true -> ceq a c = true.
+Proof. intros a b c H1 H2. apply ceq_canon in H1, H2. apply ceq_canon. congruence. Qed.
 
 Lemma ahash_canon : forall a b, acanon a = acanon b -> ahash a = ahash b.
 Proof. intros a b H. destruct a, b; simpl in *; inversion H; subst; reflexivity. Qed.
 
-Lemma nochar_canon_eq : forall a b, existsb is_char a = false -> existsb is_char b = false ->
-  map acanon a = map acanon b -> a = b.
-Proof.
-  induction a as [|x a IH]; destruct b as [|y b]; simpl; intros Ha Hb H; try reflexivity; try discriminate.
-  apply orb_false_iff in Ha as [Hx Ha]. apply orb_false_iff in Hb as [Hy Hb].
-  inversion H as [[H1 H2]]. f_equal; [|now apply IH].
-  destruct x, y; simpl in *; try discriminate; inversion H1; subst; reflexivity.
-Qed.
-
-Lemma khash_compat : forall ah a b, key_ok a = true -> key_ok b = true -> keq a b = true -> khash ah a = khash ah b.
-Proof.
-  intros ah [a|a] [b|b] Ha Hb H; simpl in *; try discriminate.
-  - apply ahash_canon. now apply aeq_canon.
-  - f_equal. apply negb_true_iff in Ha, Hb. apply nochar_canon_eq; try assumption. now apply alist_eq_canon.
-Qed.
-
-Lemma unwrap_idem : forall a, unwrap (unwrap a) = unwrap a.
-Proof. intros [a|[|a [|b r]]]; reflexivity. Qed.
-
-Lemma unwrap_ok : forall a, key_ok a = true -> key_ok (unwrap a) = true.
-Proof. intros [a|[|a [|b r]]]; simpl; auto. Qed.
-
-Lemma keq_fixed : forall a b, keq a b = true -> unwrap a = a -> unwrap b = b.
-Proof.
-  intros [a|[|a [|a' ra]]] [b|[|b [|b' rb]]]; simpl; intros H Hf; try reflexivity; try discriminate.
-  rewrite andb_false_r in H. discriminate.
-Qed.
-
-(* the hash codes the code computes for atoms respect Compare = 0, whatever the strings are *)
+(* the hash codes the code computes for atoms respect Compare = 0, whatever the strings are:
+   for atoms the key identity "same code and Compare = 0" is just Compare = 0 *)
 Theorem atom_hash_compat : forall a b, aeq a b = true -> ahash a = ahash b.
 Proof. intros a b H. apply ahash_canon. now apply aeq_canon. Qed.
 
-(* ------------------------------------------------------------------ *)
-(* instance of the generic development: arbitrary array hash [ah] *)
-Section Instance.
-Variable ah : list atom -> Z.
+Theorem kid_atoms : forall ah a b, kid ah (KAtom a) (KAtom b) = aeq a b.
+Proof.
+  intros ah a b. unfold kid. simpl. destruct (aeq a b) eqn:E; [|apply andb_false_r].
+  rewrite (atom_hash_compat a b E), Z.eqb_refl. reflexivity.
+Qed.
 
-Definition ZInv (t : ztbl) : Prop := Inv key Z keq (khash ah) unwrap key_ok t.
+Lemma unwrap_idem : forall a, key_ok a = true -> unwrap (unwrap a) = unwrap a.
+Proof. intros [a|[|a [|b r]]|[|a [|b r]]]; simpl; intros H; try reflexivity; discriminate. Qed.
+
+Lemma unwrap_ok : forall a, key_ok a = true -> key_ok (unwrap a) = true.
+Proof. intros [a|[|a [|b r]]|l]; reflexivity. Qed.
+
+Lemma ceq_fixed : forall a b, ceq a b = true -> unwrap a = a -> unwrap b = b.
+Proof.
+  intros [a|[|a [|a' ra]]|la] [b|[|b [|b' rb]]|lb]; simpl; intros H Hf; try reflexivity; try discriminate.
+  rewrite andb_false_r in H. discriminate.
+Qed.
+
+(* ------------------------------------------------------------------ *)
+(* instance of the bridge: arbitrary hash [ah] of non-atom keys *)
+Definition ZInv (ah : key -> Z) (t : ztbl) : Prop := KInv key Z ceq (khash ah) unwrap key_ok t.
 Definition zop_ok (o : zop) : Prop := key_ok (op_key key Z o) = true.
-Definition zop_plain (o : zop) : Prop := match o with ODel k => unwrap k = k | OSet _ _ => True end.
-Definition zstep := step key Z keq (khash ah) unwrap.
-Definition zs_step := s_step key Z keq unwrap.
-Definition zabs := abs key Z keq (khash ah) unwrap.
+Definition zabs (ah : key -> Z) : ztbl -> spec key Z := abs key Z ceq (khash ah) unwrap.
+Definition zget ah := hash_get key Z ceq (khash ah) unwrap.          (* (hget h k) *)
+Definition zgetd ah := hash_get_default key Z ceq (khash ah) unwrap. (* (hget h k default) *)
+Definition zhpair ah := hpair key Z ceq (khash ah) unwrap.           (* (hpair h i) *)
+Definition zrange_pair ah := range_pair key Z ceq (khash ah) unwrap. (* (__rangePair h i) *)
+Definition zrange_key ah := range_key key Z ceq (khash ah) unwrap.   (* (__rangeKey h i) *)
+Definition zjson ah := json_obs key Z ceq (khash ah) unwrap.         (* (json h) *)
+Definition zstr ah := str_obs key Z ceq (khash ah) unwrap.           (* (str h) *)
+Definition zloop_macro ah := loop_macro key Z ceq (khash ah) unwrap. (* (range k v h ..) *)
+Definition zloop_infix ah := loop_infix key Z ceq (khash ah) unwrap. (* for k, v := range h *)
+Definition zlen : ztbl -> outcome Z := len key Z.                    (* (len h), (__rangeLen h) *)
+Definition zkeys : ztbl -> list key := keys key Z.                   (* (keys h) *)
+Definition zs_lookup ah := s_lookup key Z (kid ah) unwrap.
 
-Ltac hyps := first [exact keq_refl | exact keq_sym | exact keq_trans | exact (khash_compat ah)
-                   | exact unwrap_idem | exact unwrap_ok | exact keq_fixed].
+Section Instance.
+Variable ah : key -> Z.
 
-Lemma zop_ok_eq : forall o, zop_ok o <-> op_ok key Z key_ok o.
-Proof. intros; reflexivity. Qed.
-Lemma zop_plain_eq : forall o, zop_plain o <-> op_plain key Z unwrap o.
-Proof. intros [k v|k]; reflexivity. Qed.
+Ltac hyps := first [exact ceq_refl | exact ceq_sym | exact ceq_trans
+                   | exact unwrap_idem | exact unwrap_ok | exact ceq_fixed].
 
-Theorem z_inv_init : ZInv (empty key Z).
-Proof. apply inv_empty. Qed.
+Theorem z_inv_init : ZInv ah (empty key Z).
+Proof. apply b_inv_init. Qed.
 
-Theorem z_inv_step : forall t o, ZInv t -> zop_ok o -> ZInv (zstep t o).
-Proof. intros t o. apply inv_step; hyps. Qed.
+Theorem z_inv_step : forall t o, ZInv ah t -> zop_ok o -> ZInv ah (zstep ah t o).
+Proof. intros t o. apply (b_inv_step key Z ceq (khash ah) unwrap key_ok); hyps. Qed.
 
-Theorem z_reachable_inv : forall ops, Forall zop_ok ops -> ZInv (zrun ah ops).
-Proof. intros ops H. apply reachable_inv; try hyps. exact H. Qed.
+Theorem z_reachable_inv : forall ops, Forall zop_ok ops -> ZInv ah (zrun ah ops).
+Proof. intros ops H. apply (b_reachable_inv key Z ceq (khash ah) unwrap key_ok); try hyps. exact H. Qed.
 
-Theorem z_step_refines : forall t o, ZInv t -> zop_ok o -> zop_plain o -> zabs (zstep t o) = zs_step (zabs t) o.
-Proof. intros t o HI Hok Hpl. apply (step_refines key Z keq (khash ah) unwrap key_ok); try hyps; assumption. Qed.
+Theorem z_step_refines : forall t o, ZInv ah t -> zop_ok o -> zabs ah (zstep ah t o) = zs_step ah (zabs ah t) o.
+Proof. intros t o. apply (b_step_refines key Z ceq (khash ah) unwrap key_ok); hyps. Qed.
 
-Theorem z_history_refines : forall ops, Forall zop_ok ops -> Forall zop_plain ops -> zabs (zrun ah ops) = zs_run ops.
-Proof.
-  intros ops Hok Hpl. apply (history_refines key Z keq (khash ah) unwrap key_ok); try hyps; assumption.
-Qed.
+Theorem z_history_refines : forall ops, Forall zop_ok ops -> zabs ah (zrun ah ops) = zs_run ah ops.
+Proof. intros ops H. apply (b_history_refines key Z ceq (khash ah) unwrap key_ok); try hyps. exact H. Qed.
 
-Notation zget := (hash_get key Z keq (khash ah) unwrap).
-Notation zgetd := (hash_get_default key Z keq (khash ah)).
-Notation zhpair := (hpair key Z keq (khash ah) unwrap).
-Notation zrange_pair := (range_pair key Z keq (khash ah) unwrap).
-Notation zrange_key := (range_key key Z keq (khash ah) unwrap).
-Notation zjson := (json_obs key Z keq (khash ah) unwrap).
-Notation zstr := (str_obs key Z keq (khash ah) unwrap).
-Notation zloop_macro := (loop_macro key Z keq (khash ah) unwrap).
-Notation zloop_infix := (loop_infix key Z keq (khash ah) unwrap).
-Notation zlen := (len key Z).
-Notation zkeys := (keys key Z).
-Notation zs_lookup := (s_lookup key Z keq unwrap).
-
-Theorem z_get_refines : forall t k, ZInv t -> key_ok k = true -> zget t k = zs_lookup (zabs t) k.
-Proof. intros t k. apply get_refines; hyps. Qed.
-
-Theorem z_getd_refines : forall t k, ZInv t -> key_ok k = true -> unwrap k = k -> zgetd t k = zs_lookup (zabs t) k.
-Proof.
-  intros t k HI Hok Hfix. unfold s_lookup. rewrite Hfix.
-  apply (getd_refines key Z keq (khash ah) unwrap key_ok); try hyps; [assumption|now split].
-Qed.
-
-Theorem z_len_refines : forall t, ZInv t -> zlen t = s_len key Z (zabs t).
-Proof. intros t. apply len_refines. Qed.
-
-Theorem z_keys_refines : forall t, ZInv t -> zkeys t = s_keys key Z (zabs t).
-Proof. intros t. apply keys_refines. Qed.
-
-Theorem z_hpair_refines : forall t pos, ZInv t -> zhpair t pos = s_pair key Z (zabs t) pos.
-Proof. intros t pos. apply hpair_refines. Qed.
-
-Theorem z_range_pair_refines : forall t pos, ZInv t -> zrange_pair t pos = s_pair key Z (zabs t) pos.
-Proof. intros t pos. apply range_pair_refines. Qed.
-
-Theorem z_range_key_refines : forall t pos, ZInv t -> zrange_key t pos = s_range_key key Z (zabs t) pos.
-Proof. intros t pos. apply range_key_refines. Qed.
-
-Theorem z_json_refines : forall t, ZInv t -> zjson t = s_json key Z (zabs t).
-Proof. intros t. apply json_refines. Qed.
-
-Theorem z_str_refines_partial : forall t, ZInv t -> zabs t <> [] \/ buckets t = [] -> zstr t = s_str key Z (zabs t).
-Proof. intros t. apply str_refines_partial. Qed.
-
-Theorem z_loop_macro_refines : forall t, ZInv t -> zloop_macro t = s_loop key Z (zabs t).
-Proof. intros t. apply loop_macro_refines. Qed.
-
-Theorem z_loop_infix_refines : forall t, ZInv t -> zloop_infix t = s_loop key Z (zabs t).
-Proof. intros t. apply loop_infix_refines. Qed.
-
-Theorem z_len_keys_agree : forall t, ZInv t ->
-  zlen t = Ok (Z.of_nat (length (zkeys t))) /\ length (zkeys t) = length (zabs t) /\ nkeys t = Z.of_nat (length (zkeys t)).
-Proof. intros t. apply len_keys_agree. Qed.
-
-Theorem z_hpair_total : forall t pos, ZInv t -> 0 <= pos < Z.of_nat (length (zkeys t)) ->
-  exists kv, zhpair t pos = Ok kv /\ nth_error (zabs t) (Z.to_nat pos) = Some kv.
-Proof. intros t pos. apply hpair_total. Qed.
-
-Theorem z_no_internal_panic : forall t, ZInv t ->
-  zlen t <> Crash /\ zjson t <> Crash /\ (forall pos, zhpair t pos <> Crash) /\
-  (forall pos, zrange_pair t pos <> Crash) /\ (forall pos, zrange_key t pos <> Crash).
-Proof. intros t. apply no_internal_panic. Qed.
-
-Theorem z_missing_delete_noop : forall t k, zgetd t k = None -> zstep t (ODel k) = t.
-Proof. intros t k. apply missing_delete_noop. Qed.
-
-Theorem z_hdel_wrapped_noop : forall t k, ZInv t -> key_ok k = true -> unwrap k <> k -> zstep t (ODel k) = t.
-Proof. intros t k. apply (hdel_wrapped_noop key Z keq (khash ah) unwrap key_ok); hyps. Qed.
-
-Theorem z_getd_wrapped_none : forall t k, ZInv t -> key_ok k = true -> unwrap k <> k -> zgetd t k = None.
-Proof. intros t k. apply (getd_wrapped_none key Z keq (khash ah) unwrap key_ok); hyps. Qed.
-
-(* the master statement: after EVERY history of hset/hdel over hash-compatible keys in which no
-   hdel names a one-element array, every observation equals the one of the ordered map *)
-Theorem z_hash_is_ordered_map : forall ops, Forall zop_ok ops -> Forall zop_plain ops ->
-  let t := zrun ah ops in let s := zs_run ops in
-  ZInv t /\ zabs t = s /\
+Theorem z_hash_is_ordered_map : forall ops, Forall zop_ok ops ->
+  let t := zrun ah ops in let s := zs_run ah ops in
+  ZInv ah t /\ zabs ah t = s /\
   zlen t = s_len key Z s /\ zkeys t = s_keys key Z s /\
-  (forall k, key_ok k = true -> zget t k = zs_lookup s k) /\
-  (forall k, key_ok k = true -> unwrap k = k -> zgetd t k = zs_lookup s k) /\
-  (forall pos, zhpair t pos = s_pair key Z s pos) /\
-  (forall pos, zrange_pair t pos = s_pair key Z s pos) /\
-  (forall pos, zrange_key t pos = s_range_key key Z s pos) /\
-  zjson t = s_json key Z s /\ zloop_macro t = s_loop key Z s /\ zloop_infix t = s_loop key Z s /\
-  (s <> [] -> zstr t = s_str key Z s).
+  (forall k, key_ok k = true -> zget ah t k = zs_lookup ah s k) /\
+  (forall k, key_ok k = true -> zgetd ah t k = zs_lookup ah s k) /\
+  (forall pos, zhpair ah t pos = s_pair key Z s pos) /\
+  (forall pos, zrange_pair ah t pos = s_pair key Z s pos) /\
+  (forall pos, zrange_key ah t pos = s_range_key key Z s pos) /\
+  zjson ah t = s_json key Z s /\ zloop_macro ah t = s_loop key Z s /\ zloop_infix ah t = s_loop key Z s /\
+  zstr ah t = s_str key Z s.
+Proof. intros ops H. apply (b_hash_is_ordered_map key Z ceq (khash ah) unwrap key_ok); try hyps. exact H. Qed.
+
+Theorem z_len_keys_agree : forall t, ZInv ah t ->
+  zlen t = Ok (Z.of_nat (length (zkeys t))) /\ length (zkeys t) = length (zabs ah t) /\ nkeys t = Z.of_nat (length (zkeys t)).
+Proof. intros t. apply (b_len_keys_agree key Z ceq (khash ah) unwrap key_ok). Qed.
+
+Theorem z_hpair_total : forall t pos, ZInv ah t -> 0 <= pos < Z.of_nat (length (zkeys t)) ->
+  exists kv, zhpair ah t pos = Ok kv /\ nth_error (zabs ah t) (Z.to_nat pos) = Some kv.
+Proof. intros t pos. apply (b_hpair_total key Z ceq (khash ah) unwrap key_ok). Qed.
+
+Theorem z_no_internal_panic : forall t, ZInv ah t ->
+  zlen t <> Crash /\ zjson ah t <> Crash /\ (forall pos, zhpair ah t pos <> Crash) /\
+  (forall pos, zrange_pair ah t pos <> Crash) /\ (forall pos, zrange_key ah t pos <> Crash).
+Proof. intros t. apply (b_no_internal_panic key Z ceq (khash ah) unwrap key_ok). Qed.
+
+Theorem z_missing_delete_noop : forall t k, zgetd ah t k = None -> zstep ah t (ODel k) = t.
+Proof. intros t k. apply (b_missing_delete_noop key Z ceq (khash ah) unwrap). Qed.
+
+Theorem z_str_refines : forall t, zstr ah t = s_str key Z (zabs ah t).
+Proof. reflexivity. Qed.
+
+(* the one key shape left out: [[a]] is stored as [a], and every later walk over KeyOrder
+   unwraps the stored [a] once more and looks for a *)
+Theorem nested_wrap_refuted :
+  let ops := [OSet (KWrap [AInt 1]) 4] in let t := zrun ah ops in
+  zs_run ah ops = [(KArr [AInt 1], 4)] /\ zkeys t = [KArr [AInt 1]] /\ zlen t = Ok 1 /\
+  zstr ah t = ([], false) /\ zhpair ah t 0 = Crash /\ zjson ah t = Crash.
 Proof.
-  intros ops Hok Hpl t s.
-  pose proof (z_reachable_inv ops Hok) as HI. pose proof (z_history_refines ops Hok Hpl) as Habs.
-  fold t in HI, Habs. fold s in Habs. rewrite <- Habs.
-  refine (conj HI (conj eq_refl _)).
-  repeat match goal with |- _ /\ _ => split end; intros;
-    auto using z_len_refines, z_keys_refines, z_get_refines, z_getd_refines, z_hpair_refines,
-    z_range_pair_refines, z_range_key_refines, z_json_refines, z_loop_macro_refines, z_loop_infix_refines.
-  apply z_str_refines_partial; auto.
-Qed.
-
-(* ------------------------------------------------------------------ *)
-(* where the code deviates: concrete witnesses *)
-Definition k1 : key := KAtom (AInt 1).
-Definition k1w : key := KArr [AInt 1].
-
-(* (hset h 1 5) (hdel h 1): the content is empty but str cuts off the opening brace *)
-Theorem str_after_emptying_refuted :
-  let ops := [OSet k1 5; ODel k1] in
-  Forall zop_ok ops /\ Forall zop_plain ops /\ zs_run ops = [] /\
-  zstr (zrun ah ops) = ([], true) /\ s_str key Z (zs_run ops) = ([], false).
-Proof. cbv zeta. repeat split; repeat constructor. Qed.
-
-(* (hset h [1] 5) (hdel h [1]): the key stays; (hget h [1] d) gives the default although (hget h [1]) finds 5 *)
-Theorem wrapped_key_refuted :
-  let ops := [OSet k1w 5; ODel k1w] in
-  Forall zop_ok ops /\ zs_run ops = [] /\ zabs (zrun ah ops) = [(k1, 5)] /\
-  zget (zrun ah [OSet k1w 5]) k1w = Some 5 /\ zgetd (zrun ah [OSet k1w 5]) k1w = None.
-Proof.
-  cbv zeta. assert (Hok : Forall zop_ok [OSet k1w 5]) by (repeat constructor).
-  pose proof (z_reachable_inv _ Hok) as HI.
-  repeat split; try (repeat constructor; fail).
-  - change (zrun ah [OSet k1w 5; ODel k1w]) with (zstep (zrun ah [OSet k1w 5]) (ODel k1w)).
-    rewrite z_hdel_wrapped_noop; [reflexivity|exact HI|reflexivity|discriminate].
-  - apply z_getd_wrapped_none; [exact HI|reflexivity|discriminate].
+  cbv zeta. unfold zrun, zs_run, run, s_run, zkeys, zlen, zstr, zhpair, zjson, keys, len, count_keys, str_obs,
+    entries, hpair, hash_pairi, json_obs, hash_get, hash_get_default, bucket_lookup. simpl.
+  unfold hash_get, hash_get_default, bucket_lookup. simpl.
+  destruct (Z.eqb (ah (KArr [AInt 1])) 1); simpl; repeat split; reflexivity.
 Qed.
 
 End Instance.
-
-(* arrays that compare equal but are hashed apart (an int and a char inside): after
-   (hset h [1 97] 1) (hset h [1 'a'] 2) (hdel h [1 'a']) the key list keeps the deleted
-   spelling, hpair at position 0 reaches the internal panic and json panics *)
-Definition kA : key := KArr [AInt 1; AInt 97].
-Definition kB : key := KArr [AInt 1; AChar 97].
-
-Theorem incompatible_array_hash_refuted : forall ah : list atom -> Z,
-  ah [AInt 1; AInt 97] <> ah [AInt 1; AChar 97] ->
-  let t := zrun ah [OSet kA 1; OSet kB 2; ODel kB] in
-  keq kA kB = true /\ keys key Z t = [kB] /\ hash_get key Z keq (khash ah) unwrap t kA = Some 1 /\
-  hpair key Z keq (khash ah) unwrap t 0 = Crash /\ json_obs key Z keq (khash ah) unwrap t = Crash.
-Proof.
-  intros ah Hne. cbv zeta.
-  assert (Hab : Z.eqb (ah [AInt 1; AInt 97]) (ah [AInt 1; AChar 97]) = false) by now apply Z.eqb_neq.
-  assert (Hba : Z.eqb (ah [AInt 1; AChar 97]) (ah [AInt 1; AInt 97]) = false) by (apply Z.eqb_neq; congruence).
-  unfold zrun, run, kA, kB, hash_get, hpair, json_obs, keys, hash_pairi.
-  unfold fold_left, step, hash_set, hash_delete, hash_get_default.
-  repeat (simpl; unfold hash_get, hash_get_default; rewrite ?Hab, ?Hba, ?Z.eqb_refl).
-  repeat split; reflexivity.
-Qed.
-
-(* names for the instantiated operations, used by the statements in Properties/C14.v *)
-Definition zget ah := hash_get key Z keq (khash ah) unwrap.          (* (hget h k) *)
-Definition zgetd ah := hash_get_default key Z keq (khash ah).        (* (hget h k default) *)
-Definition zhpair ah := hpair key Z keq (khash ah) unwrap.           (* (hpair h i) *)
-Definition zrange_pair ah := range_pair key Z keq (khash ah) unwrap. (* (__rangePair h i) *)
-Definition zrange_key ah := range_key key Z keq (khash ah) unwrap.   (* (__rangeKey h i) *)
-Definition zjson ah := json_obs key Z keq (khash ah) unwrap.         (* (json h) *)
-Definition zstr ah := str_obs key Z keq (khash ah) unwrap.           (* (str h) *)
-Definition zloop_macro ah := loop_macro key Z keq (khash ah) unwrap. (* (range k v h ..) *)
-Definition zloop_infix ah := loop_infix key Z keq (khash ah) unwrap. (* for k, v := range h *)
-Definition zlen : ztbl -> outcome Z := len key Z.                    (* (len h), (__rangeLen h) *)
-Definition zkeys : ztbl -> list key := keys key Z.                   (* (keys h) *)
-Definition zs_lookup := s_lookup key Z keq unwrap.
